@@ -22,7 +22,9 @@
 //!       query keys = alphabet ∪ 2 absent neighbours) as the ORIGINAL = the same history
 //!       replayed without the reloads; both equal the reference root;
 //!   (b) `load(deep copy of storage, root)` succeeds, has the same root and proofs, and
-//!       after every single further action has the reference root of the updated map;
+//!       after every single further action has the reference root of the updated map
+//!       (quick: the further actions on states of depth ≤ 3; deeper reload-then-operate
+//!       sequences come from the BFS itself);
 //!   (c) `load(storage, empty root)` is an empty tree (zero root, placeholder exclusion
 //!       proofs with empty proof set, behaves like a fresh tree on insert);
 //!   (d) `load(storage, r)` for roots r absent from storage (constants and the roots of all
@@ -71,6 +73,8 @@ struct M {
     fault_depth: usize,
     /// histories of exactly this length are collected for a later fault pass
     collect_depth: usize,
+    /// (b)/(e) "every further action on the loaded tree" on states up to this depth
+    further_depth: usize,
     collected: Mutex<Vec<Vec<Act>>>,
     reload_samples: std::sync::atomic::AtomicU64,
     fault_samples: std::sync::atomic::AtomicU64,
@@ -102,9 +106,10 @@ fn strip(hist: &[Act]) -> Vec<Act> {
 }
 
 impl M {
-    fn new(nkeys: usize, fault_depth: usize, collect_depth: usize) -> M {
+    fn new(nkeys: usize, fault_depth: usize, collect_depth: usize, further_depth: usize) -> M {
         M {
             nkeys,
+            further_depth,
             fault_depth,
             collect_depth,
             collected: Mutex::new(Vec::new()),
@@ -237,7 +242,7 @@ impl M {
             Err(e) => self.viol(ctx, hist, false, "C13:load:failed".into(), "Ok(tree)".into(), format!("{e:?}")),
         }
 
-        if !l.reloaded {
+        if !l.reloaded && hist.len() <= self.further_depth {
             self.further_ops(ctx, hist, &succ_roots, &snap, &root, "load");
         }
 
@@ -296,7 +301,7 @@ impl M {
                                 if nodes == snap {
                                     // identical storage and root => identical tree state as in (b)
                                     ctx.outcome("nodes_from_set:storage-identical-to-live-storage", 1);
-                                } else {
+                                } else if hist.len() <= self.further_depth {
                                     self.further_ops(ctx, hist, &succ_roots, &nodes, &r, "nodes_from_set");
                                 }
                             }
@@ -532,7 +537,9 @@ fn explore(ctx: &Ctx) {
             "query_keys_extra": absent_neighbours().iter().map(hex::encode).collect::<Vec<_>>(),
         }),
     );
-    let m = M::new(nkeys, fault_depth, collect_depth);
+    let further_depth = ctx.pick(3usize, usize::MAX);
+    ctx.set("load_plus_every_further_action_on_states_up_to_depth", json!(if further_depth == usize::MAX { depth } else { further_depth }));
+    let m = M::new(nkeys, fault_depth, collect_depth, further_depth);
     let st = bfs::bfs(&m, depth, 3_000_000, ctx);
     ctx.set(
         "bfs",
@@ -572,7 +579,7 @@ fn replay(case: &Value, ctx: &Ctx) {
     let nkeys = case["nkeys"].as_u64().expect("nkeys") as usize;
     let faults = case["faults"].as_bool().unwrap_or(false);
     // fault enumeration only on the final state of a fault case
-    let m = M::new(nkeys, 0, usize::MAX);
+    let m = M::new(nkeys, 0, usize::MAX, usize::MAX);
     bfs::replay_path(&m, &acts, ctx);
     if faults {
         if let Ok(l) = replay_hist(&acts, false) {
